@@ -581,6 +581,24 @@ pub fn run(tier: Tier) -> i32 {
             format!("{}a", "(".repeat(64)),
             format!("a{}", ")".repeat(2_000)),
             "a\u{0}b".into(),
+            // numeric patterns at the edges of the integer and double ranges
+            ">9223372036854775807".into(),
+            ">=9223372036854775807".into(),
+            "<-9223372036854775808".into(),
+            "<=-9223372036854775808".into(),
+            "=9223372036854775808".into(),
+            "=-9223372036854775809".into(),
+            "i>9223372036854775807".into(),
+            ">1.7976931348623157e308".into(),
+            ">1e400".into(),
+            "<-1e400".into(),
+            ">-0".into(),
+            ">=-0.0".into(),
+            "=+1".into(),
+            ">1.".into(),
+            ">.5".into(),
+            ">1e".into(),
+            ">0x10".into(),
             "A\u{b}and\u{c}B".into(),
             "A\rand\nB".into(),
             "\u{b}".into(),
